@@ -295,13 +295,19 @@ static std::vector<double> Stationary_Points(double a, double b, double c, doubl
 {
 	std::vector<double> points;
 	double discriminant = b * b - 3.0 * a * c;
-	if(a != 0.0 && discriminant >= 0.0)
+	if(discriminant >= 0.0)
 	{
-		points.push_back(x_j + (-b - sqrt(discriminant)) / (3.0 * a));
-		points.push_back(x_j + (-b + sqrt(discriminant)) / (3.0 * a));
+		// Roots of 3a*dx^2 + 2b*dx + c in the form that does not cancel (also when a is tiny or zero): q/(3a) and c/q.
+		double q = -(b + ((b >= 0.0) ? sqrt(discriminant) : -sqrt(discriminant)));
+		if(q != 0.0)
+		{
+			points.push_back(x_j + c / q);
+			if(a != 0.0)
+				points.push_back(x_j + q / (3.0 * a));
+		}
+		else if(a != 0.0)
+			points.push_back(x_j);
 	}
-	else if(a == 0.0 && b != 0.0)
-		points.push_back(x_j - c / (2.0 * b));
 	std::vector<double> inside;
 	for(double x : points)
 		if(x > lo && x < hi)
